@@ -50,6 +50,7 @@ def gen(st, index, job):
     enabled = [o for o in OPS if ro.random() < 0.7] or ['append', 'pop']
     ops = [[enabled[ro.randrange(len(enabled))], ro.randrange(256), ro.randrange(256), ro.randrange(256)]
            for _ in range(nops)]
+    ops[0][0] = OPS[index % len(OPS)]   # stratified first operation
     return {'lists': lists, 'ops': ops}
 
 
